@@ -203,6 +203,15 @@ func Equal[T comparable](iters ...Iterator[T]) bool {
 // Last consumes iter and returns the last n items. If iter yields fewer than n items, Last returns
 // all of them.
 func Last[T any](iter Iterator[T], n int) []T {
+	if n <= 0 {
+		// Nothing to keep, but iter is still consumed.
+		for {
+			_, ok := iter.Next()
+			if !ok {
+				return nil
+			}
+		}
+	}
 	buf := make([]T, n)
 	i := 0
 	for {
